@@ -20,7 +20,7 @@ let server () = match !srv with
   | Some s -> s
   | None ->
     let exe = try Sys.getenv "C11_ENCSERVER" with Not_found -> failwith "C11_ENCSERVER not set" in
-    let s = Unix.open_process (exe ^ " --encserver") in srv := Some s; s
+    let s = Unix.open_process (if Filename.check_suffix exe ".sh" then exe else exe ^ " --encserver") in srv := Some s; s
 let ask line =
   let (ic, oc) = server () in
   output_string oc line; output_char oc (Char.chr 10); Stdlib.flush oc; input_line ic
@@ -106,9 +106,9 @@ let panic_str w = match int_of_n w with
   | 1 -> "PANIC(unwrap-none)" | 2 -> "PANIC(index)" | 3 -> "PANIC(assert)" | k -> Printf.sprintf "PANIC(%d)" k
 let res_str (okf : 'a -> string) (r : 'a res) : string =
   match r with Ok a -> okf a | Err e -> err_str e | Panic w -> panic_str w | OutOfFuel -> "H"
-let ret_str = function RN n -> string_of_int (int_of_nat n) | RInt -> "I" | RErr e -> Printf.sprintf "E%d" (int_of_n e)
+let ret_str = function RN n -> string_of_int (int_of_n n) | RInt -> "I" | RErr e -> Printf.sprintf "E%d" (int_of_n e)
 let ev_str = function
-  | EvIO (o, r) -> Printf.sprintf "%d>%s" (int_of_nat o) (ret_str r)
+  | EvIO (o, r) -> Printf.sprintf "%d>%s" (int_of_n o) (ret_str r)
   | EvFlush (RN _) -> "f>ok"
   | EvFlush r -> "f>" ^ ret_str r
 let log_str (l : event list) : string = clip (rle (Stdlib.List.rev_map ev_str l))
@@ -150,7 +150,7 @@ let case_copy q lgwin ibuf obuf src rs ws =
   let c0 = copier_new (nat_of_int ibuf) (nat_of_int obuf) st0 (mk_source src (parse_script rs)) (mk_sink (parse_script ws)) in
   let (r, c) = copy enc_step enc_finished fuel c0 in
   Printf.sprintf "res=%s rlog=%s wlog=%s sink=%s"
-    (res_str (fun n -> Printf.sprintf "k%d" (int_of_nat n)) r)
+    (res_str (fun n -> Printf.sprintf "k%d" (int_of_n n)) r)
     (log_str c.c_src.src_log) (log_str c.c_sink.k_log) (bytes_sig (sink_bytes c.c_sink))
 
 let case_write_all ws ez ei buf =
